@@ -105,6 +105,13 @@ func genCsvRow(rng *rand.Rand) *csvRow {
 		Side: sideT(rng.Intn(3) - 1),
 		Tail: strPool[rng.Intn(len(strPool))],
 	}
+	switch rng.Intn(12) {
+	case 0:
+		r.Day, r.When = time.Time{}, time.Time{} // the zero time: a field nobody set
+	case 1:
+		r.Day = time.Date(1+rng.Intn(999), time.Month(1+rng.Intn(12)), 1+rng.Intn(28), 0, 0, 0, 0, time.UTC) // a year of fewer than four digits
+		r.Dmy = time.Date(1+rng.Intn(99), time.Month(1+rng.Intn(12)), 1+rng.Intn(28), 0, 0, 0, 0, time.UTC)
+	}
 	if rng.Intn(6) == 0 {
 		// the same dates and times of day, held in a zone other than UTC (a value that came from
 		// local time): the cell shows what the value reads in its own zone
